@@ -185,6 +185,20 @@ Section Chart.
                    {| l_ptrs := ptrs; l_full := orb make_full (Nat.eqb (length ptrs) (N_order - 1)) |} in
     (adjust, l', r').
 
+  (* Subsume(first_left, first_right, second_left, second_right, between_length = 0): merge two adjacent fragments;
+     returns (adjust, first_left', second_right') *)
+  Definition subsume (l1 : left) (r1 : state) (l2 : left) (r2 : state) : Z * left * state :=
+    let '(v, written, bw) := extend_loop (s_words r1) (s_bo r1) (l_ptrs l2) (negb (l_full l1)) in
+    let '(adjust, r2', make_full) :=
+      if l_full l2 then (x_adjust v + sum_bo bw, r2, x_make_full v)
+      else
+        let r' := {| s_words := s_words r2 ++ firstn (x_next_use v) (s_words r1); s_bo := s_bo r2 ++ bw |} in
+        (x_adjust v, r', orb (x_make_full v) (Nat.eqb (length (s_words r')) (N_order - 1))) in
+    let l1' := if l_full l1 then l1
+               else let ptrs := l_ptrs l1 ++ written in
+                    {| l_ptrs := ptrs; l_full := orb make_full (orb (l_full l2) (Nat.eqb (length ptrs) (N_order - 1))) |} in
+    (adjust, l1', r2').
+
   Fixpoint yield (t : tree) : list word :=
     match t with
     | Rule _ _ items =>
